@@ -33,6 +33,9 @@ pub fn install_hook() {
             } else {
                 "<non-string panic payload>".to_string()
             };
+            if std::env::var("VERIF_PANIC_BT").is_ok() {
+                eprintln!("PANIC at {loc}: {msg}\n{}", std::backtrace::Backtrace::force_capture());
+            }
             let quiet = QUIET.with(|q| *q.borrow());
             LAST.with(|l| *l.borrow_mut() = Some(PanicRec { loc, msg }));
             if !quiet {
